@@ -19,9 +19,9 @@ import (
 
 // c37Event is one chain event as the deduplicator sees it. Kind selects the notifier.
 type c37Event struct {
-	Kind  string `json:"kind"` // "started" | "submitted" | "closed"
-	Seed  string `json:"seed,omitempty"`  // hex
-	Hash  string `json:"hash,omitempty"`  // 64 hex digits
+	Kind  string `json:"kind"`           // "started" | "submitted" | "closed"
+	Seed  string `json:"seed,omitempty"` // hex
+	Hash  string `json:"hash,omitempty"` // 64 hex digits
 	Block uint64 `json:"block,omitempty"`
 	ID    string `json:"id,omitempty"` // 64 hex digits
 }
@@ -283,14 +283,14 @@ func c37CollisionsBody(r *vrep.R, kind string, dom []c37Event) {
 // ---- driver ------------------------------------------------------------------------
 
 type c37Replay struct {
-	Leg     string     `json:"leg"`
-	Conc    *c37Conc   `json:"conc,omitempty"`
-	Kind    string     `json:"kind,omitempty"`
-	Steps   int        `json:"steps,omitempty"`
-	Choices []int      `json:"choices,omitempty"`
-	Bound   int        `json:"bound,omitempty"`
-	First   *c37Event  `json:"first,omitempty"`
-	Second  *c37Event  `json:"second,omitempty"`
+	Leg     string    `json:"leg"`
+	Conc    *c37Conc  `json:"conc,omitempty"`
+	Kind    string    `json:"kind,omitempty"`
+	Steps   int       `json:"steps,omitempty"`
+	Choices []int     `json:"choices,omitempty"`
+	Bound   int       `json:"bound,omitempty"`
+	First   *c37Event `json:"first,omitempty"`
+	Second  *c37Event `json:"second,omitempty"`
 }
 
 func TestVerifC37(t *testing.T) {
